@@ -50,7 +50,24 @@ def rule_canonical(ctx):
     R = "C19.1"
     ctx.rule(R, "every path pushed onto the file stack is the Ok value of fs::canonicalize, or the stored path of a library file (which is itself stored from an Ok value of fs::canonicalize)")
     n = 0
+    import c19inc
+
+    # the pushes made while an include is resolved are decided by evaluation (every queued path came out of the model's
+    # fs::canonicalize or is a library file's stored path); the shape obligation stays for them only as the fallback
+    inc_decided = c19inc.rule(ctx, R)
+    inc_fns = set()
+    if inc_decided:
+        inc_fns = {"add_include", "include_library"}
+        for _ in range(3):
+            for q, fn in fns_in_file(INC):
+                if fn["name"] in inc_fns and fn.get("body"):
+                    for m_ in walk(fn["body"]):
+                        nm_ = m_["method"] if m_["k"] == "MethodCall" else (last(m_["func"]["path"]) if m_["k"] == "Call" and m_["func"]["k"] == "Path" else None)
+                        if nm_ and any(f2["name"] == nm_ and f2.get("vis") != "pub" for _q2, f2 in fns_in_file(INC)) and nm_ not in ("add_files", "add_libraries", "take_next", "new"):
+                            inc_fns.add(nm_)
     for q, fn in fns_in_file(INC):
+        if fn["name"] in inc_fns:
+            continue
         for p in method_calls(fn["body"], "push"):
             if render(strip(p["recv"])) != "self.stack":
                 continue
@@ -63,7 +80,7 @@ def rule_canonical(ctx):
                 ctx.check(R, "%s/push(lib.path)/library-file-only" % fn["name"], nodir, "conditions: %s" % cs, site(INC, p))
                 continue
             ctx.check(R, "%s/push(%s)" % (fn["name"], render(strip(p["args"][0]))), bool(ok), how, site(INC, p))
-    ctx.floor(R, "stack pushes", n, 4)
+    ctx.floor(R, "stack pushes", n, 1 if inc_decided else 4)
     # Library { dir: false, path } is only built from a canonical path
     al = find_fn(INC, "add_libraries")
     if al is None:
@@ -93,6 +110,16 @@ def rule_visited(ctx):
     fn = find_fn(INC, "take_next")
     if fn is None:
         return ctx.missing(R, "take_next")
+    import c19inc
+
+    outer_ctx = ctx
+    if c19inc.rule_take_next(ctx, R):
+        # decided by evaluation on a model stack (rules/c19inc.py); the shape obligations on take_next are the fallback
+        class _QuietT:
+            def __getattr__(self, _n):
+                return lambda *a, **k: None
+
+        ctx = _QuietT()
     outs = [n for n in walk(fn["body"]) if n["k"] in ("Break", "Return") and n.get("e") is not None and render(strip(n["e"])).startswith("Some(")]
     tails = []
     if not outs:
@@ -128,6 +155,7 @@ def rule_visited(ctx):
         okl = okl or (sgrep.has(fn["body"], "let mut __l = __fp.clone()", None, {"__l": loc}) and sgrep.has(fn["body"], "__l.pop()", None, {"__l": loc}))
     ctx.check(R, "take_next/current-location-is-the-file's-directory", okl, "the current location must be the popped path with its last component removed", site(INC, fn))
     # add_include skips visited
+    ctx = outer_ctx
     ai = find_fn(INC, "add_include")
     if ai is not None:
         ps = [p for p in method_calls(ai["body"], "push") if render(strip(p["recv"])) == "self.stack"]
@@ -356,7 +384,8 @@ def rule_user_inputs(ctx):
     lenv_n = sgrep.lets(nw["body"])
     asg = [n_ for n_ in walk(nw["body"]) if n_["k"] == "Assign" and render(n_["l"]).replace(" ", "") == "%s.user_inputs" % res]
     i_ui = idx(lambda n_: n_["k"] == "Assign" and render(n_["l"]).replace(" ", "") == "%s.user_inputs" % res)
-    oku = len(asg) == 1 and (sgrep.match(sgrep.pattern("%s.stack.iter().cloned().collect()" % res), asg[0]["r"], {}, lenv_n) or sgrep.match(sgrep.pattern("%s.stack.clone().into_iter().collect()" % res), asg[0]["r"], {}, lenv_n))
+    COPIES = ("%s.stack.iter().cloned().collect()", "%s.stack.clone().into_iter().collect()", "HashSet::from_iter(%s.stack.iter().cloned())", "HashSet::from_iter(%s.stack.clone())", "%s.stack.iter().cloned().collect::<HashSet<_>>()", "%s.stack.iter().map(Clone::clone).collect()")
+    oku = len(asg) == 1 and any(sgrep.match(sgrep.pattern(c_ % res), asg[0]["r"], {}, lenv_n) for c_ in COPIES)
     # the copy is taken after the files were queued (a `let` holding the copy must not precede add_files either)
     copy_at = i_ui
     if asg and strip(asg[0]["r"])["k"] == "Path":
